@@ -182,6 +182,14 @@ def gen_system(rng, i, periodic_only=False, max_atoms=40, scale=None):
     n = {'one': 1, 'two': 2, 'few': int(rng.integers(3, 13)), 'many': int(rng.integers(13, max_atoms + 1))}[c['natoms']]
     rel, tags = gen_rel(rng, n, c['profile'])
     pos = G.cart(rel, v, o)
+    # position storage form: whole-number coordinates handed over as an integer array / nested list of Python ints
+    # (an fcc cell typed in as [[0,0,0],[2,2,0],...]); only where the cell is several units wide
+    posform = 'float'
+    if (i // 3) % 5 == 2 and np.linalg.norm(v, axis=1).min() >= 3.0 and np.abs(pos).max() < 1e9:
+        posform = ('int64', 'intlist', 'int32')[(i // 15) % 3]
+        pos = np.rint(pos)
+        rel = G.rel(pos, v, o)
+        tags = ['integer'] * n
     ntypes = int(rng.integers(1, 4))
     atype = rng.integers(1, ntypes + 1, n)
     atype[0] = ntypes                                       # so that natypes == ntypes
@@ -196,4 +204,4 @@ def gen_system(rng, i, periodic_only=False, max_atoms=40, scale=None):
     masses = [[26.98, 63.55, 58.69][k] for k in range(ntypes)]
     L = np.linalg.norm(v, axis=1).max()
     return dict(classes=c, vects=v, origin=o, pbc=c['pbc'], rel=rel, tags=tags, pos=pos, atype=atype,
-                extras=extras, symbols=symbols, masses=masses, L=L, lammps=cell['lammps'] and c['hand'] == 'right')
+                extras=extras, symbols=symbols, masses=masses, L=L, lammps=cell['lammps'] and c['hand'] == 'right', posform=posform)
